@@ -217,6 +217,14 @@ _ROUND7 = {
     "C33": " The random bytes of the encrypted wire format are owned: every value of the blob's first byte (salt[0]) and every value of its last byte (end of the GCM tag, reached with a deterministic nonce counter) is round-tripped.",
     "C36": " _TICK_PAGE_SIZE is set to 3 so that the tick log replayed by a reload spans several pages.",
 }
+_ROUND7.update({
+    "C11": " The catalog also has a step under a TIME-bounded retry policy (stop_after_delay) that fails twice while another step keeps the run going until later: state rebuilt from the log after the policy's window must equal the live state.",
+    "C19": " DictState keys include the one the library treats specially when a value cannot be serialized (memory, memory.turns) holding plain JSON.",
+    "C20": " Also one write of the SQLite state store refused ('database is locked') at an explorer-chosen point: the operation fails without effect or completes, and the final state is a serial order of the operations that completed.",
+    "C29": " Also merges whose items are the sources' own values, one of them None.",
+    "C34": " detect_change_type also on every pair in which a version is written with fewer than three release components (1, 1.0).",
+    "C35": " The catalog also has a retry delay pending while a sibling's completion starts a new gated worker; a run that stays live with nothing enabled must have reported NOT_RUNNING for every step body that ended.",
+})
 for _k, _add in _ROUND7.items():
     _t = CHECKS[_k]
     CHECKS[_k] = (_t[0], _t[1] + _add, *_t[2:])
